@@ -8,6 +8,9 @@ import (
 	"go/types"
 )
 
+// atomChunk is the content of []byte(atom): opaque, only string(b) gives the atom back.
+type atomChunk struct{ t *Term }
+
 // normBytesStr returns a plain Go string when every byte is concrete.
 func normBytesStr(b []value) value {
 	out := make([]byte, len(b))
@@ -100,6 +103,16 @@ func (r *Run) convBytesStr(dst, src types.Type, x value) (value, bool) {
 		if us, ok := src.Underlying().(*types.Slice); ok {
 			if b, ok := us.Elem().Underlying().(*types.Basic); ok && b.Kind() == types.Byte {
 				if ud, ok := dst.Underlying().(*types.Basic); ok && ud.Kind() == types.String {
+					if len(v) == 1 {
+						if c, ok := v[0].(atomChunk); ok {
+							return symStr{c.t}, true
+						}
+					}
+					for _, e := range v {
+						if _, ok := e.(atomChunk); ok {
+							panic(unsupported{"byte slice mixing atom bytes with other bytes"})
+						}
+					}
 					return normBytesStr(v), true
 				}
 			}
